@@ -41,16 +41,17 @@ From PVGen Require Import Lit LitSpec LitClass Proofs.LitNum Proofs.LitP Proofs.
 (* the arm lists of lit_into_ty / lit_as_rvalue / ident_into_ty regenerated from the Rust source are, arm for arm and in
    source order, the lists the model was written against (a removed / merged / added / reordered arm breaks this) *)
 Theorem C20_arm_tables :
-  lit_into_ty_arms = model_lit_into_ty_arms /\
+  (lit_into_ty_arms = model_lit_into_ty_arms \/ lit_into_ty_arms = model_lit_into_ty_arms ++ [arc_into_arm]) /\
   lit_as_rvalue_arms = [ ([(LPMap, CPLazyStaticRef)], FFalse); ([(LPMap, CPMap)], FFalse); ([(LPMap, CPBTreeMap)], FFalse);
                          ([(LPList, CPLazyMap)], FFalse); ([(LPList, CPLazyStaticRef)], FFalse);
                          ([(LPList, CPMap)], FFalse); ([(LPList, CPBTreeMap)], FFalse) ] /\
-  ident_into_ty_arms = [ ([(CPAny, CPAdtNewType)], FDyn); ([(CPStr, CPFastStr)], FTrue); ([(CPStr, CPString)], FFalse);
-                         ([(CPAdtEnum, CPI64); (CPAdtEnum, CPI32); (CPAdtEnum, CPI16); (CPAdtEnum, CPI8)], FTrue) ] /\
+  (ident_into_ty_arms = model_ident_into_ty_arms \/
+   ident_into_ty_arms = model_ident_into_ty_arms ++ [([(CPAny, CPArc)], FFalse)]) /\
+  arc_ok = Nat.ltb 4 (length ident_into_ty_arms) /\
   int_float_casts = [(CPF32, CPF32); (CPF64, CPF64); (CPOrderedF64, CPF64)] /\ int_bool_test = (true, 0).
 Proof.
-  exact (conj lit_into_ty_arms_pinned (conj lit_as_rvalue_arms_pinned (conj ident_into_ty_arms_pinned
-           (conj (proj1 lit_scalars_pinned) (proj1 (proj2 lit_scalars_pinned)))))).
+  exact (conj lit_into_ty_arms_pinned (conj lit_as_rvalue_arms_pinned (conj ident_into_ty_arms_pinned (conj arc_arms_together
+           (conj (proj1 lit_scalars_pinned) (proj1 (proj2 lit_scalars_pinned))))))).
 Qed.
 Print Assumptions C20_arm_tables.
 
@@ -143,25 +144,75 @@ Proof.
 Qed.
 Print Assumptions C20_missing_arms_repaired.
 
-(* still open, class no-arm: no literal of any kind can be the default of a `pilota.rust_wrapper_arc` field *)
+(* ---- three proposed repairs (fam/gen/patches: arc-field-default, container-const-reference, double-sign-run).  The
+   regenerated tables say whether the generator has them; each pair below holds in BOTH forms, one of the two vacuously ---- *)
+
+(* a default on a `pilota.rust_wrapper_arc` field: no literal of any kind had an arm (class arc-field-default) *)
+Theorem C20_arc_field_default_refuted : arc_ok = false ->
+  well_typed_lit pf0 W_arc (erase (RArc (RPath 0))) (LMap [(LString [x6e], LInt 1)]) = true /\
+  default_val_lit pf0 W_arc (RArc (RPath 0)) (LMap [(LString [x6e], LInt 1)]) = LPanic PUnexpectedLiteral /\
+  default_val_lit pf0 W_arc (RArc RString) (LString [x61]) = LPanic PUnexpectedLiteral /\
+  default_val_lit pf0 W_arc (RArc RString) (LConst 0) = LPanic PInvalidConvert.
+Proof. exact arc_field_default_refuted. Qed.
+Print Assumptions C20_arc_field_default_refuted.
+
+Theorem C20_arc_field_default_repaired : arc_ok = true ->
+  default_val_lit pf0 W_arc (RArc (RPath 0)) (LMap [(LString [x6e], LInt 1)]) = LOk (GStruct [(2, GI32 1)] [], false) /\
+  default_val_lit pf0 W_arc (RArc RString) (LString [x61]) = LOk (GBytes [x61], false) /\
+  default_val_lit pf0 W_arc (RArc RString) (LConst 0) = LOk (GBytes [x6b], false) /\
+  default_val_lit pf0 W_arc (RVec (RArc (RPath 0))) (LList [LMap [(LString [x6e], LInt 4)]]) = LOk (GList [GStruct [(2, GI32 4)] []], false) /\
+  default_val_lit pf0 W_arc (RMap RFastStr (RArc (RPath 0))) (LMap [(LString [x61], LMap [(LString [x6e], LInt 5)])])
+    = LOk (GMap [(GBytes [x61], GStruct [(2, GI32 5)] [])], false).
+Proof. exact arc_field_default_repaired. Qed.
+Print Assumptions C20_arc_field_default_repaired.
+
+(* a reference to a const of list / set / map type (class container-const-reference) *)
+Theorem C20_container_const_reference_refuted : const_inline_present = false ->
+  well_typed_lit pf0 W_const_ref (erase (RSet RFastStr)) (LConst 1) = true /\
+  default_val_lit pf0 W_const_ref (RVec RI32) (LConst 0) = LPanic PInvalidConvert /\
+  default_val_lit pf0 W_const_ref (RSet RFastStr) (LConst 1) = LPanic PInvalidConvert /\
+  default_val_lit pf0 W_const_ref (RMap RFastStr RI32) (LConst 2) = LPanic PInvalidConvert.
+Proof. exact container_const_reference_refuted. Qed.
+Print Assumptions C20_container_const_reference_refuted.
+
+Theorem C20_container_const_reference_repaired : const_inline_present = true ->
+  default_val_lit pf0 W_const_ref (RVec RI32) (LConst 0) = LOk (GList [GI32 1; GI32 2], false) /\
+  default_val_lit pf0 W_const_ref (RSet RFastStr) (LConst 1) = LOk (GSet [GBytes [x61]], false) /\
+  default_val_lit pf0 W_const_ref (RBTreeSet RFastStr) (LConst 1) = LOk (GSet [GBytes [x61]], false) /\
+  default_val_lit pf0 W_const_ref (RMap RFastStr RI32) (LConst 2) = LOk (GMap [(GBytes [x6b], GI32 1)], false) /\
+  default_val_lit pf0 W_const_ref (RPath 0) (LConst 0) = LOk (GList [GI32 1; GI32 2], false) /\
+  default_val_lit pf0 W_const_ref (RVec (RVec RI32)) (LList [LConst 0; LList []]) = LOk (GList [GList [GI32 1; GI32 2]; GList []], false).
+Proof. exact container_const_reference_repaired. Qed.
+Print Assumptions C20_container_const_reference_repaired.
+
+(* the double constant `-+1.5` (class double-sign-run): accepted by the IDL grammar, not by f64::from_str *)
+Theorem C20_double_sign_run_refuted : double_sign_run_ok = false ->
+  well_typed_lit pf0 (mkLS [] []) TyDouble (LFloat [x2d; x2b; x31; x2e; x35]) = true /\
+  default_val_lit pf0 (mkLS [] []) RF64 (LFloat [x2d; x2b; x31; x2e; x35]) = LPanic PParseFloat /\
+  pclass_top (mkLS [] []) (LFloat [x2d; x2b; x31; x2e; x35]) (item_cty RF64) = Some PCFloatSigns.
+Proof. exact double_sign_run_refuted. Qed.
+Print Assumptions C20_double_sign_run_refuted.
+
+Theorem C20_double_sign_run_repaired : double_sign_run_ok = true ->
+  default_val_lit pf0 (mkLS [] []) RF64 (LFloat [x2d; x2b; x31; x2e; x35]) = LOk (GDouble 13832806255468478464, true) /\
+  default_val_lit pf0 (mkLS [] []) (RSet ROrderedF64) (LList [LFloat [x2d; x2b; x31; x2e; x35]]) = LOk (GSet [GDouble 13832806255468478464], false) /\
+  pclass_top (mkLS [] []) (LFloat [x2d; x2b; x31; x2e; x35]) (item_cty RF64) = None.
+Proof. exact double_sign_run_repaired. Qed.
+Print Assumptions C20_double_sign_run_repaired.
+
+(* open whatever the form, class no-arm: a string at `binary` with rust_type = "vec" *)
 Theorem C20_no_arm_refuted : exists parse_f64 S t l,
   well_typed_lit parse_f64 S (erase t) l = true /\ default_val_lit parse_f64 S t l = LPanic PUnexpectedLiteral /\
   pclass_top S l (item_cty t) = Some PCNoArm.
-Proof.
-  exists pf0, (mkLS [] []), (RArc RString), (LString [x61]).
-  exact (conj (proj1 no_arm_refuted) (conj (proj1 (proj2 no_arm_refuted)) (proj1 (proj2 (proj2 no_arm_refuted))))).
-Qed.
+Proof. exists pf0, (mkLS [] []), RBytesVec, (LString [x61]). exact no_arm_refuted. Qed.
 Print Assumptions C20_no_arm_refuted.
 
-(* still open, class path-convert: a REFERENCE to a const of container type (the const itself is generated now) *)
-Theorem C20_container_const_reference_refuted : exists parse_f64 S t l,
+(* open whatever the form, class path-convert: a const of a typedef type used at the aliased type *)
+Theorem C20_path_convert_refuted : exists parse_f64 S t l,
   well_typed_lit parse_f64 S (erase t) l = true /\ default_val_lit parse_f64 S t l = LPanic PInvalidConvert /\
   pclass_top S l (item_cty t) = Some PCPathConvert.
-Proof.
-  exists pf0, W_const_set, (RSet RI32), (LConst 0).
-  exact (conj (proj1 path_convert_refuted) (conj (proj1 (proj2 path_convert_refuted)) (proj1 (proj2 (proj2 path_convert_refuted))))).
-Qed.
-Print Assumptions C20_container_const_reference_refuted.
+Proof. exists pf0, (mkLS [INewType RI32] [(RPath 0, LInt 1)]), RI32, (LConst 0). exact path_convert_refuted. Qed.
+Print Assumptions C20_path_convert_refuted.
 
 (* still open, class nested-map: a map literal as a map KEY (only lit_into_ty looks at keys; no Rust map is hashable) *)
 Theorem C20_map_key_map_refuted : exists parse_f64 S t l,
